@@ -8,6 +8,7 @@
 #include <map>
 #include <set>
 #include <algorithm>
+#include <initializer_list>
 #include "vharness.hpp"
 #include <frg/rcu_radixtree.hpp>
 
@@ -47,6 +48,23 @@ struct RV : vh::TV {
 	RV(const RV &) = delete;
 	~RV() { value_event(3, this); }
 };
+
+// Second instantiation (oracle kind "value-ctor"): a value type with an initializer_list constructor, constructed from
+// TWO arguments.  rcu_radixtree.hpp constructs the value with T{std::forward<Args>(args)...} in all three insertion
+// cases, so Bag{a, b} (the list {a, b}) is what must be held whatever case the key's insertion took; T(args...) would
+// pick Bag(int n, int v) (n copies of v).  The reference is a std::map<uint64_t, Bag> built with the same brace form.
+// The model stores "the value made from the arguments" abstractly (MConstruct n i v in every case): that the stored
+// value does not depend on the insertion case is the modelling assumption this instantiation checks.
+struct Bag {
+	std::vector<int> items;
+	Bag(std::initializer_list<int> l) : items(l) { }
+	Bag(int n, int v) : items((size_t)n, v) { }
+	bool operator==(const Bag &o) const { return items == o.items; }
+	std::string str() const { std::string r = "{"; for(int x : items) r += std::to_string(x) + ","; return r + "}"; }
+};
+using BagTree = frg::rcu_radixtree<Bag, vh::TrackAlloc>;
+inline int bag_a(uint64_t v) { return 2 + (int)(v % 3); }
+inline int bag_b(uint64_t v) { return 11 + (int)(v % 1000); }
 
 using Tree = frg::rcu_radixtree<RV, RAlloc>;
 using Node = Tree::node;
@@ -163,6 +181,18 @@ void body(const vh::Lines &ls) {
 	bool stopped = false;
 	{
 		Tree t;
+		BagTree bt;                       // mirrors every insert/erase of the script with a two-argument Bag
+		std::map<uint64_t, Bag> bref;
+		auto bag_check = [&](uint64_t k, const char *when) {
+			Bag *p = bt.find(k);
+			auto it = bref.find(k);
+			if((p != nullptr) != (it != bref.end()))
+				vh::oracle("value-ctor", "%s: Bag tree %s key %#llx, reference %s", when, p ? "holds" : "lacks",
+					(unsigned long long)k, it != bref.end() ? "holds it" : "does not");
+			else if(p && !(*p == it->second))
+				vh::oracle("value-ctor", "%s: key %#llx holds %s, but T{args...} of its insertion is %s (value depends on the insertion case)",
+					when, (unsigned long long)k, p->str().c_str(), it->second.str().c_str());
+		};
 		size_t opno = 0;
 		for(auto &line : ls) {
 			auto w = vh::split(line);
@@ -211,6 +241,16 @@ void body(const vh::Lines &ls) {
 						ref[k] = Ref{p, v};
 					}
 					if(t.find(k) != ref[k].p) vh::oracle("refmap", "find(%#llx) right after find_or_insert does not return its address", (unsigned long long)k);
+					{	// the same insertion on the Bag tree, through insert or find_or_insert with two constructor arguments
+						bool bhad = bref.count(k);
+						Bag *bp; bool bins;
+						if(o == "i" && !bhad) { bp = bt.insert(k, bag_a(v), bag_b(v)); bins = true; }
+						else { auto r = bt.find_or_insert(k, bag_a(v), bag_b(v)); bp = r.template get<0>(); bins = r.template get<1>(); }
+						if(bins == bhad) vh::oracle("value-ctor", "Bag tree: find_or_insert(%#llx) insertion flag wrong", (unsigned long long)k);
+						if(!bhad) bref.emplace(k, Bag{bag_a(v), bag_b(v)});
+						if(bp != bt.find(k)) vh::oracle("value-ctor", "Bag tree: find(%#llx) does not return the inserted address", (unsigned long long)k);
+						bag_check(k, o == "i" ? "after insert" : "after find_or_insert");
+					}
 				} else if(o == "e") {
 					uint64_t k = vh::u64(w[1]);
 					auto it = ref.find(k);
@@ -222,6 +262,7 @@ void body(const vh::Lines &ls) {
 					if(t.find(k)) vh::oracle("refmap", "find(%#llx) still finds the key after erase", (unsigned long long)k);
 					if(p) p->~RV();          // the caller's part of the protocol (after the grace period)
 					if(it != ref.end()) ref.erase(it);
+					if(bref.count(k)) { Bag *bp = bt.find(k); bt.erase(k); if(bp) bp->~Bag(); bref.erase(k); bag_check(k, "after erase"); }
 					printf("u\n");
 				} else if(o == "it") {
 					std::vector<RV *> seen;
@@ -234,6 +275,16 @@ void body(const vh::Lines &ls) {
 						if(++n > ref.size() + 8) { vh::oracle("iter-order", "iteration does not end within size+8 steps"); break; }
 					}
 					printf("\n");
+					{	// the Bag tree iterates the same keys: values must be the reference's, in ascending key order
+						auto bi = bt.begin(); size_t bn = 0;
+						for(auto &kv : bref) {
+							if(bi == bt.end()) { vh::oracle("value-ctor", "Bag tree: iteration ends after %zu of %zu values", bn, bref.size()); break; }
+							if(!(*bi == kv.second)) { vh::oracle("value-ctor", "Bag tree: iterator yields %s for key %#llx, T{args...} is %s",
+								bi->str().c_str(), (unsigned long long)kv.first, kv.second.str().c_str()); break; }
+							++bi; bn++;
+						}
+						if(bn == bref.size() && bi != bt.end()) vh::oracle("value-ctor", "Bag tree: iteration yields more than %zu values", bref.size());
+					}
 					std::vector<RV *> want;
 					for(auto &kv : ref) want.push_back(kv.second.p);   // ascending key order
 					if(seen != want) {
@@ -253,9 +304,11 @@ void body(const vh::Lines &ls) {
 			print_events();
 			dump(t, false);
 			if(ref.size() <= 48 || opno % 8 == 0) sweep(t, ref, "after op");
+			if(bref.size() <= 48 || opno % 8 == 0) for(auto &kv : bref) bag_check(kv.first, "sweep");
 		}
 		if(!stopped) {
 			sweep(t, ref, "final sweep");
+			for(auto &kv : bref) bag_check(kv.first, "final sweep");
 			printf("final\n");
 			dump(t, true);
 			printf("d\n");
